@@ -3,7 +3,7 @@
 From Coq Require Import Ascii String List Arith ZArith NArith Bool Lia.
 Import ListNotations.
 From Selfies Require Import Base Generated Lex Atoms Grammar Decoder IndexSpec Reader DocGrammar WfSpec BaseFacts StateFacts ConfigFacts DecoderBasics
-  LexFacts NopFacts CompatFacts DecoderInv DecoderTree DecoderSum TokFacts WriterAtoms WriterLex WriterSim WriterFinal RingCount CompatTotal DocAtoms DocDerive DocRings.
+  LexFacts NopFacts CompatFacts DecoderInv DecoderTree DecoderSum TokFacts WriterAtoms WriterLex WriterSim WriterFinal RingCount CompatTotal DocAtoms DocDerive DocRings Preorder.
 Local Open Scope Z_scope.
 
 (* ---------- the decoded graph and the documented state ---------- *)
@@ -140,4 +140,48 @@ Proof.
   - rewrite Hread. f_equal. unfold relabel. cbn [sm_atoms sm_nbrs]. f_equal.
     + apply map_ext_in. intros j Hj. apply Hall in Hj. now rewrite nth_map_seq.
     + apply map_ext_in. intros j Hj. apply Hall in Hj. rewrite nth_map_seq by exact Hj. apply frow_relabel.
+Qed.
+
+(* ---------- "atoms in derivation order": the emission order is the creation order ---------- *)
+Lemma pos_seq n j : (j < n)%nat -> pos (seq 0 n) j = j.
+Proof.
+  intro H. apply (pos_nth (seq 0 n) j j (seq_NoDup n 0)). rewrite nth_error_nth' with (d := 0%nat) by (now rewrite seq_length). now rewrite seq_nth.
+Qed.
+
+Theorem decoder_refines_grammar_exact T (frs : list (list item)) attribute out maps :
+  (exists c, assoc (lit "?") T = Some c) -> frs <> [] -> Forall wfd frs ->
+  symbols_short (render_frags frs) -> (ring_symbol_count (render_frags frs) false < 100)%nat ->
+  decoder T (render_frags frs) false attribute = Ok (out, maps) ->
+  exists g, grammar_eval T (dtoks frs) = Ok g /\ read_smiles out = Some g.
+Proof.
+  intros Hq Hne Hwf Hs Hr E. set (s := render_frags frs) in *.
+  pose proof (frags_ok_of_symbols s false Hs) as Hd.
+  unfold decoder, decoder_c in E. change (decode_graph_c (get_bonding_capacity T) s false attribute) with (decode_graph T s false attribute) in E.
+  destruct (decode_graph T s false attribute) as [m|] eqn:Eg; cbn [bind] in E; [|discriminate].
+  destruct (decode_graph_ok2 T s false attribute m Hq Hd Eg) as [HG HT].
+  assert (Hr' : (length (ring_pairs m) < 100)%nat).
+  { apply Nat.le_lt_trans with (ring_symbol_count s false); [|exact Hr]. exact (ring_pairs_le_symbols (get_bonding_capacity T) s false attribute m Eg). }
+  destruct (printed_reads_ord T m HG HT Hr' out maps E) as (ord & Hnd & Hall & Hread & Eord).
+  rewrite (Preorder.decoded_eord T s false attribute m Eg) in Eord. subst ord.
+  set (frs' := map (fun fr => filter not_nop (symbols fr)) frs).
+  assert (Htok : tokenize_all s false = map (fun fr => (fr, @None exn)) frs').
+  { unfold s, frs'. rewrite (tokenize_all_false frs Hne Hwf), map_map. reflexivity. }
+  assert (Hok : Forall (Forall tok_ok) frs').
+  { unfold frags_ok in Hd. rewrite Htok in Hd. apply Forall_forall. intros fr Hfr. rewrite Forall_forall in Hd.
+    destruct (Hd (fr, None) ltac:(apply in_map_iff; eauto)) as [_ X]. exact X. }
+  destruct (decode_graph_doc T s attribute frs' m Hq Htok Hok Eg) as (d0 & rings & made & D0 & HI).
+  destruct (state_graph T rings m made _ HI) as [Sa Sn].
+  assert (Hfrag : fragments (dtoks frs) [] = frs').
+  { rewrite (fragments_dtoks frs [] Hne). unfold frs'. destruct frs as [|fr rest]; [congruence|]. reflexivity. }
+  exists {| sm_atoms := map (aat m) (seq 0 (natoms m)); sm_nbrs := map (frow_id m) (seq 0 (natoms m)) |}.
+  split.
+  - unfold grammar_eval. rewrite Hfrag, D0. cbn [bind]. now rewrite Sa, Sn.
+  - rewrite Hread. f_equal. f_equal. apply map_ext_in. intros x Hx. apply in_seq in Hx.
+    rewrite frow_relabel. rewrite <- (map_id (frow_id m x)) at 2. apply map_ext_in. intros sl Hsl.
+    assert (Hto : (sl_to sl < natoms m)%nat).
+    { unfold frow_id in Hsl. apply in_app_iff in Hsl as [Hsl|Hsl].
+      - destruct (par m x) as [[p e]|] eqn:Ep; [|destruct Hsl]. destruct Hsl as [<-|[]]. cbn [mkslot sl_to].
+        destruct (par_some m (hb_of T m HG) _ _ _ Ep) as (_ & _ & _ & Hp). lia.
+      - apply in_map_iff in Hsl as (e & <- & He). cbn. destruct (hb_of T m HG x e He) as (A & _). exact A. }
+    unfold reslot. rewrite (pos_seq _ _ Hto). destruct sl; reflexivity.
 Qed.
